@@ -83,6 +83,11 @@ func decorate(t *rapid.T, w *wl.Workload, l specenc.Layout) specenc.Layout {
 			specenc.UnknownRec{Where: "chunk", Chunk: 0, Pos: rapid.IntRange(0, 2).Draw(t, "fu-pos"), Op: byte(rapid.IntRange(0x10, 0xFF).Draw(t, "fu-op")), Body: wl.Fill(rapid.IntRange(0, 20).Draw(t, "fu-len"), 3)},
 			specenc.UnknownRec{Where: "summary", Pos: 0, Op: 0x10, Body: wl.Fill(rapid.IntRange(0, 20).Draw(t, "fs-len"), 5), WithOffset: rapid.Bool().Draw(t, "fs-off")})
 	}
+	if l.Chunked && rapid.IntRange(0, 2).Draw(t, "unknown-at-chunk-end") == 0 {
+		// Pos -1 = after the last record of the chunk
+		d.Unknown = append(d.Unknown, specenc.UnknownRec{Where: "chunk", Chunk: rapid.IntRange(0, 3).Draw(t, "ce-chunk"), Pos: -1,
+			Op: byte(rapid.IntRange(0x10, 0xFF).Draw(t, "ce-op")), Body: wl.Fill(rapid.SampledFrom([]int{0, 0, 1, 9}).Draw(t, "ce-len"), 9)})
+	}
 	n := rapid.IntRange(1, 10).Draw(t, "n-unknown")
 	for i := 0; i < n; i++ {
 		u := specenc.UnknownRec{Op: byte(rapid.IntRange(0x10, 0xFF).Draw(t, "u-op"))}
